@@ -7,6 +7,7 @@ tie:    gen/progs.py typed random programs -> prog.dora + prog.sexp (same AST) -
 keys:   oracle:miscompile:<backend>:<feature>   executable != reference semantics
         oracle:crash:<backend>                  signal / Rust panic / compiler failure on a valid program
         corr:mini:<what>                        reference interpreter stuck / out of fuel / unreadable twin
+        (machine leg, checks/c01_masm.py: corr:masm-translate:*, corr:masm-bytes:*, corr:x64sem:*, oracle:masm-grid:*, proof:<theorem>)
         proof:C01                               a theorem no longer checks
 
 Shared with C02: `build_results` caches per-program results under
@@ -22,6 +23,7 @@ import signal
 import sys
 
 from . import common as C
+from . import c01_masm
 
 sys.path.insert(0, os.path.join(C.VERIF, "gen"))
 import progs as G  # noqa: E402
@@ -506,6 +508,8 @@ def run(ctx):
     po = C.proof_obligations(ctx, PROP_MODULE, PROP_FILE, hygiene_paths=("DoraModel/Mini", PROP_FILE))
     drv, dlog = C.lean_exe("drv_c01")
     C.log("[c01] proofs+driver %.0fs" % (time.time() - t0))
+    # machine leg (lean/DoraModel/Props/C01Masm.lean, checks/c01_masm.py): reports its own findings, returns its coverage
+    masm = c01_masm.leg(ctx) if not ctx.replay else {}
     if drv is None:
         raise RuntimeError("driver build failed:\n" + dlog[-3000:])
     t0 = time.time()
@@ -605,8 +609,11 @@ def run(ctx):
                     "property theorems of C01 no longer check: %s" % "; ".join(po["failed"])[:400],
                     no_input=not (stats["disagreements"] or stats["oracle_failures"]))
     shutil.rmtree(os.path.join(cdir, "shrink_%d" % os.getpid()), ignore_errors=True)
-    cov = dict(obligations=po["obligations"], discharged=po["discharged"], checker_cmd=po["checker_cmd"],
-               trusted_base=po["trusted_base"] + [
+    cov = dict(obligations=po["obligations"] + masm.get("obligations", 0),
+               discharged=po["discharged"] + masm.get("discharged", 0),
+               checker_cmd=po["checker_cmd"] + (" ; " + masm["checker_cmd"] if masm.get("checker_cmd") else ""),
+               masm=masm,
+               trusted_base=po["trusted_base"] + [t for t in masm.get("trusted_base", []) if t not in po["trusted_base"]] + [
                    "MiniDora reference semantics lean/DoraModel/Mini/{Prim,Eval}.lean is the specification; validated "
                    "only by agreement with both code generators on the generated programs",
                    "gen/progs.py (both twins are printed from one AST), drv_c01, checks/c01.py",
